@@ -59,13 +59,6 @@ func runEG(c *Ctx, s *Sink) {
 			return ""
 		}
 		nAdd := 0
-		usesLCS := false
-		ast.Inspect(fd.Body, func(n ast.Node) bool {
-			if call, ok := n.(*ast.CallExpr); ok && isCallTo(info, call, "pkg/obialign.FastLCSScore") {
-				usesLCS = true
-			}
-			return true
-		})
 		var visitBlock func(list []ast.Stmt)
 		visitBlock = func(list []ast.Stmt) {
 			for i, st := range list {
@@ -139,34 +132,65 @@ func runEG(c *Ctx, s *Sink) {
 						return true
 					})
 				}
-				// one-difference graph (the default): the link goes to a STRICTLY more abundant sequence
-				if !usesLCS {
+				// the link goes to a STRICTLY more abundant sequence, for the one-difference graph and for its extension to
+				// larger distances alike: a tie would be linked in the direction given by the positions of the two sequences
+				// in the loaded data, which depend on the schedule of the readers
+				{
 					keyS := key + ":strict"
 					son := rootIdent(as.Lhs[0])
 					var guard *ast.BinaryExpr
-					ast.Inspect(fd.Body, func(n ast.Node) bool {
-						ifs, ok := n.(*ast.IfStmt)
-						if !ok || !(as.Pos() >= ifs.Body.Pos() && as.End() <= ifs.Body.End()) {
-							return true
-						}
-						if b, ok := ast.Unparen(ifs.Cond).(*ast.BinaryExpr); ok {
+					negated := false
+					countCmp := func(e ast.Expr) *ast.BinaryExpr {
+						if b, ok := ast.Unparen(e).(*ast.BinaryExpr); ok {
 							lx, okx := ast.Unparen(b.X).(*ast.SelectorExpr)
 							ly, oky := ast.Unparen(b.Y).(*ast.SelectorExpr)
 							if okx && oky && lx.Sel.Name == "Count" && ly.Sel.Name == "Count" {
-								guard = b
+								return b
+							}
+						}
+						return nil
+					}
+					ast.Inspect(fd.Body, func(n ast.Node) bool {
+						switch x := n.(type) {
+						case *ast.IfStmt:
+							if as.Pos() >= x.Body.Pos() && as.End() <= x.Body.End() {
+								if b := countCmp(x.Cond); b != nil {
+									guard, negated = b, false
+								}
+							}
+						case *ast.BlockStmt:
+							// 'if <count comparison> { continue }' earlier in a block enclosing the append
+							if !(as.Pos() >= x.Pos() && as.End() <= x.End()) {
+								return true
+							}
+							for _, st := range x.List {
+								if st.Pos() > as.Pos() {
+									break
+								}
+								if ifs, ok := st.(*ast.IfStmt); ok && ifs.Else == nil && len(ifs.Body.List) == 1 {
+									if br, ok := ifs.Body.List[0].(*ast.BranchStmt); ok && br.Tok == token.CONTINUE {
+										if b := countCmp(ifs.Cond); b != nil && guard == nil {
+											guard, negated = b, true
+										}
+									}
+								}
 							}
 						}
 						return true
 					})
 					switch {
 					case guard == nil:
-						s.Fail(nil, keyS, as.Pos(), "the edge is added without comparing the abundances of the two sequences: the one-difference graph must link a sequence to a strictly more abundant one only")
+						s.Fail(nil, keyS, as.Pos(), "the edge is added without comparing the abundances of the two sequences: sequences tied in abundance (or a more abundant son) get linked, in a direction that depends on their positions in the loaded data — with -d 2 the statuses change from run to run")
 					default:
 						lx := ast.Unparen(guard.X).(*ast.SelectorExpr)
 						ly := ast.Unparen(guard.Y).(*ast.SelectorExpr)
 						fatherLeft := nodeIndex(lx.X) == father && info.ObjectOf(rootIdent(ly.X)) == info.ObjectOf(son)
 						fatherRight := nodeIndex(ly.X) == father && info.ObjectOf(rootIdent(lx.X)) == info.ObjectOf(son)
-						okStrict := (fatherLeft && guard.Op == token.GTR) || (fatherRight && guard.Op == token.LSS)
+						op := guard.Op
+						if negated {
+							op = map[token.Token]token.Token{token.LEQ: token.GTR, token.GEQ: token.LSS, token.LSS: token.GEQ, token.GTR: token.LEQ}[op]
+						}
+						okStrict := (fatherLeft && op == token.GTR) || (fatherRight && op == token.LSS)
 						if okStrict {
 							s.Pass(nil, keyS, guard.Pos(), "edge added only when the father is strictly more abundant than the son")
 						} else {
